@@ -21,9 +21,15 @@ theorem skel_Bidirectional : Gen.Skel.Bidirectional =
      "wg.Done", "connB.Close", "readerB.Read", "connA.Write", "tryCloseWrite",
      "wg.Wait", "connA.Close", "connB.Close"] := by decide
 
-/-- `UDP`: the tunnel→UDP goroutine closes `udpConn` when it ends (second `udpConn.Close` is the final one). -/
+/-- `UDP`: the only `tunnelConn.Write` is the one inside `flushLocked` (first entry), and every call of
+`flushLocked` lies between `batchMu.Lock` and `batchMu.Unlock` — the lock fact behind "a tunnel Write in
+progress refers to a batch region nobody can overwrite" (`Enc.wip` blocks every append in the model).
+The tunnel→UDP goroutine closes `udpConn` when it ends (the second `udpConn.Close` is the final one). -/
 theorem skel_UDP : Gen.Skel.UDP =
-    ["wg.Add", "wg.Done", "tunnelConn.Write", "flushLocked", "udpConn.Read", "flushLocked", "flushLocked", "flushLocked",
+    ["wg.Add", "wg.Done", "tunnelConn.Write",
+     "batchMu.Lock", "flushLocked", "batchMu.Unlock",                      -- flush goroutine
+     "udpConn.Read", "batchMu.Lock", "flushLocked", "batchMu.Unlock",      -- read ended: final flush
+     "batchMu.Lock", "flushLocked", "batchMu.Unlock", "flushLocked", "batchMu.Unlock",  -- datagram: full / half-full flush
      "tryCloseWrite", "wg.Done", "udpConn.Close", "flush", "udpConn.Write", "tunnelConn.Read", "flush", "flush", "flush",
      "flush", "wg.Wait", "udpConn.Close", "tunnelConn.Close"] := by decide
 
@@ -42,52 +48,88 @@ theorem size_obligations :
 
 /-! ## TCP relay (`Bidirectional`) -/
 
-/-- **Main TCP theorem.** For all scripts of both sockets and EVERY schedule in which each goroutine
-gets enough turns (any order of half-close / close / error on either side): the relay returns, each
-side has received a prefix of the other side's bytes in order, and all of them unless that side
-itself refused a Write. -/
-theorem C12_tcp_fair (A B : EP) (σ : List Bool)
-    (ha : stepsFor A.reads ≤ σ.count true) (hb : stepsFor B.reads ≤ σ.count false) :
-    holdsTcp A B (tcpObs (tcpRun A B σ)) = true :=
-  holdsTcp_of A B _ (tcpRun_inv A B σ) (tcpRun_returned A B σ ha hb)
+/-- **Main TCP theorem.** For all scripts of both sockets and EVERY schedule `σ` — any interleaving
+of the two goroutines, any order of half-close / close / error on either side, Writes that stay in
+progress on a slow sink (holding a reference to the relay's copy buffer) while the other direction
+runs — followed by the completion of the pending Writes and any uninterrupted tail `τ` in which each
+goroutine gets enough turns: the relay returns, each side has received a prefix of the other side's
+bytes in order, and all of them unless that side itself refused a Write. -/
+theorem C12_tcp_fair (A B : EP) (σ τ : List TTok) (hτ : plainT τ)
+    (ha : stepsFor A.reads ≤ τ.count .a) (hb : stepsFor B.reads ≤ τ.count .b) :
+    holdsTcp A B (tcpObs A B (tcpRun A B (σ ++ [.ax, .bx] ++ τ))) = true :=
+  holdsTcp_of A B _ (tcpRun_inv A B _) (tcpRun_returned A B σ τ hτ ha hb)
 
 /-- The same for the run the driver executes: an arbitrary schedule prefix, then the fixed drain order. -/
-theorem C12_tcp (A B : EP) (σ : List Bool) :
-    holdsTcp A B (tcpObs (tcpRun A B (tcpComplete A B σ))) = true :=
-  C12_tcp_fair A B _ (tcpComplete_counts A B σ).1 (tcpComplete_counts A B σ).2
+theorem C12_tcp (A B : EP) (σ : List TTok) :
+    holdsTcp A B (tcpObs A B (tcpRun A B (tcpComplete A B σ))) = true := by
+  rw [tcpComplete_eq]
+  exact C12_tcp_fair A B σ _ (drain_plain _ _) (drain_counts _ _).1 (drain_counts _ _).2
 
-/-- **In order, at every moment**: after any schedule whatsoever (fair or not, finished or not) what
-each side has received is a prefix of what the other side sent. -/
-theorem C12_tcp_in_order_always (A B : EP) (σ : List Bool) :
+/-- **In order, at every moment**: after any schedule whatsoever (fair or not, finished or not, Writes
+in progress or not) what each side has received is a prefix of what the other side sent. -/
+theorem C12_tcp_in_order_always (A B : EP) (σ : List TTok) :
     (tcpRun A B σ).ab.delivered <+: A.reads.flatten ∧ (tcpRun A B σ).ba.delivered <+: B.reads.flatten :=
   ⟨(tcpRun_inv A B σ).ab.pre, (tcpRun_inv A B σ).ba.pre⟩
 
-/-- **Returns exactly when both directions have finished** (`wg.Wait`), and both do finish under every fair schedule. -/
-theorem C12_tcp_returns (A B : EP) (σ : List Bool) :
+/-- **Returns exactly when both directions have finished** (`wg.Wait`), and both do finish once pending
+Writes complete and each goroutine gets its turns. -/
+theorem C12_tcp_returns (A B : EP) (σ τ : List TTok) :
     ((tcpRun A B σ).returned = true ↔ (tcpRun A B σ).ab.done = true ∧ (tcpRun A B σ).ba.done = true) ∧
-    (stepsFor A.reads ≤ σ.count true → stepsFor B.reads ≤ σ.count false → (tcpRun A B σ).returned = true) :=
-  ⟨by simp [TcpSt.returned], tcpRun_returned A B σ⟩
+    (plainT τ → stepsFor A.reads ≤ τ.count .a → stepsFor B.reads ≤ τ.count .b →
+      (tcpRun A B (σ ++ [.ax, .bx] ++ τ)).returned = true) :=
+  ⟨by simp [TcpSt.returned], tcpRun_returned A B σ τ⟩
 
-/-- **Half-close does not stop the reverse direction**: in any state in which A→B has finished (A reached
-EOF or failed, B's write side was half-closed) the next B→A iteration still delivers B's next chunk
-to A, and leaves the finished direction untouched. -/
+/-- **Half-close does not stop the reverse direction**, for EVERY kind of endpoint object (`A.kind`, `B.kind`
+are arbitrary): in any state in which A→B has finished (A reached EOF or failed; `tryCloseWrite(B)` was
+issued — a real half-close for a `cw` endpoint, nothing at all for the wrapper kinds) the next B→A
+iteration still delivers B's next chunk to A, and leaves the finished direction untouched. -/
 theorem C12_tcp_reverse_continues (A B : EP) (s : TcpSt) (c : Bytes) (cs : List Bytes)
-    (_hab : s.ab.done = true) (hba : s.ba.done = false) (hp : s.ba.pending = c :: cs)
+    (_hab : s.ab.done = true) (hq : s.baHeld = none) (hba : s.ba.done = false) (hp : s.ba.pending = c :: cs)
     (hne : c.isEmpty = false) (hle : c.length ≤ cloudconstants.CopyBufferSize)
-    (hacc : sinkRefuses A s.ab.tailSeen s.ba.nw = false) :
-    (tcpStep A B s false).ba.delivered = s.ba.delivered ++ c ∧ (tcpStep A B s false).ab = s.ab := by
-  refine ⟨?_, by simp [tcpStep]⟩
-  simp only [tcpStep, Bool.false_eq_true, if_false, dirStep, hba, hp, rdNext, hle, if_true, hne, hacc]
+    (hacc : sinkRefuses A s.aSeen s.ba.nw = false) :
+    (tcpStep A B s .b).ba.delivered = s.ba.delivered ++ c ∧ (tcpStep A B s .b).ab = s.ab := by
+  refine ⟨?_, by simp [tcpStep, hq]⟩
+  simp only [tcpStep, hq, Option.isSome_none, Bool.false_eq_true, if_false, dirStep, hba, hp, rdNext, hle, if_true, hne, hacc]
   split <;> rfl
 
-/-- Without refused writes every byte arrives, in both directions, under every fair schedule. -/
-theorem C12_tcp_delivers_all (A B : EP) (σ : List Bool)
-    (ha : stepsFor A.reads ≤ σ.count true) (hb : stepsFor B.reads ≤ σ.count false)
-    (hwB : (tcpRun A B σ).ab.wfEnv = false) (hwA : (tcpRun A B σ).ba.wfEnv = false) :
-    (tcpRun A B σ).ab.delivered = A.reads.flatten ∧ (tcpRun A B σ).ba.delivered = B.reads.flatten := by
-  have inv := tcpRun_inv A B σ
-  have hd : (tcpRun A B σ).ab.done = true ∧ (tcpRun A B σ).ba.done = true := by
-    simpa [TcpSt.returned] using tcpRun_returned A B σ ha hb
+/-- **What `tryCloseWrite` does, per kind**: a half-close reaches socket B exactly when A→B has finished and
+B implements `CloseWrite`; for the wrapper kinds (`same`: reader and writer are the same transport conn, as all
+production callers build the tunnel side; `split`; `none`) nothing reaches the transport — the peer sees the end
+of that direction only at the final `Close`, which is issued only after BOTH directions have finished. -/
+theorem C12_tcp_halfclose_by_kind (A B : EP) (σ : List TTok) :
+    ((tcpObs A B (tcpRun A B σ)).cwB = true ↔ (tcpRun A B σ).ab.done = true ∧ B.kind = .cw) ∧
+    ((tcpObs A B (tcpRun A B σ)).cwA = true ↔ (tcpRun A B σ).ba.done = true ∧ A.kind = .cw) ∧
+    ((tcpObs A B (tcpRun A B σ)).closed = true ↔ (tcpRun A B σ).ab.done = true ∧ (tcpRun A B σ).ba.done = true) := by
+  refine ⟨?_, ?_, by simp [tcpObs, TcpSt.returned]⟩
+  · cases hk : B.kind <;> simp [tcpObs, tryCloseWrite, hk]
+  · cases hk : A.kind <;> simp [tcpObs, tryCloseWrite, hk]
+
+/-- The two functions through which a half-close travels, as regenerated from the source:
+`tryCloseWrite` tries `*net.TCPConn` then the `CloseWriter` interface and otherwise does nothing;
+`readWriteCloser.CloseWrite` tries `closeWriteFunc`, then the Writer's `CloseWrite`, and otherwise does
+nothing — in particular it never calls `Close` on anything. -/
+theorem skel_closeWrite : Gen.Skel.tryCloseWrite = ["tcpConn.CloseWrite", "cw.CloseWrite"] ∧
+    Gen.Skel.readWriteCloser_CloseWrite = ["closeWriteFunc", "cw.CloseWrite"] ∧
+    Gen.Skel.readWriteCloser_Close = ["closeFunc"] := by decide
+
+/-- **A slow Write does not stop the other direction either**: while A→B is blocked inside a Write on B
+(the sink holds a reference to A→B's copy buffer), every B→A step runs exactly as if nothing were
+pending, the pending Write is unaffected, and when it completes A→B continues with the state it had. -/
+theorem C12_tcp_slow_write (A B : EP) (s : TcpSt) (d : Dir) (hh : s.abHeld = some d) (hq : s.baHeld = none) :
+    (tcpStep A B s .b).ba = dirStep B A s.aSeen s.ba ∧ (tcpStep A B s .b).abHeld = some d ∧
+    (tcpStep A B s .b).ab = s.ab ∧ tcpStep A B s .a = s ∧ (tcpStep A B s .ax).ab = d := by
+  simp [tcpStep, hh, hq]
+
+/-- Without refused writes every byte arrives, in both directions, after every schedule. -/
+theorem C12_tcp_delivers_all (A B : EP) (σ : List TTok)
+    (hwB : (tcpRun A B (tcpComplete A B σ)).ab.wfEnv = false) (hwA : (tcpRun A B (tcpComplete A B σ)).ba.wfEnv = false) :
+    (tcpRun A B (tcpComplete A B σ)).ab.delivered = A.reads.flatten ∧
+    (tcpRun A B (tcpComplete A B σ)).ba.delivered = B.reads.flatten := by
+  have inv := tcpRun_inv A B (tcpComplete A B σ)
+  have hd : (tcpRun A B (tcpComplete A B σ)).ab.done = true ∧ (tcpRun A B (tcpComplete A B σ)).ba.done = true := by
+    have := tcpRun_returned A B σ _ (drain_plain (stepsFor A.reads) (stepsFor B.reads)) (drain_counts _ _).1 (drain_counts _ _).2
+    rw [← tcpComplete_eq] at this
+    simpa [TcpSt.returned] using this
   have f1 := inv.ab.full hwB
   have f2 := inv.ba.full hwA
   rw [inv.ab.fin hd.1 hwB] at f1
@@ -115,7 +157,7 @@ theorem C12_udp_cut (ds : List Bytes) (hwf : ds.all wfDgram = true) (cut : Nat) 
 chunking, every ending of either side and every schedule, the repaired relay returns, and what it
 wrote to the UDP socket is the parse of the flattened stream — independent of the chunking. The only
 hypothesis: not both sides stay silent forever. -/
-theorem C12_udp_terminates (c : UdpCase) (hwf : ¬ (c.utail = .hold ∧ c.ttail = .hold)) (σ : List Bool) :
+theorem C12_udp_terminates (c : UdpCase) (hwf : ¬ (c.utail = .hold ∧ c.ttail = .hold)) (σ : List UTok) :
     (udpRun .repaired c (udpComplete c σ)).returned = true ∧
     (udpRun .repaired c (udpComplete c σ)).dec.out = (drainAll c.tchunks.flatten).pk := by
   have h := udp_returned c hwf σ
@@ -126,30 +168,78 @@ theorem C12_udp_terminates (c : UdpCase) (hwf : ¬ (c.utail = .hold ∧ c.ttail 
 /-- **Main UDP theorem.** For all datagram/tick sequences on the UDP side (the flush schedule), all
 tunnel streams that are the encoding of well-formed datagrams cut at ANY offset (or followed by
 arbitrary bytes), all chunkings of that stream, all endings (EOF / error / blocked until closed, error
-fused with the last chunk) and all schedules of the two goroutines: the relay returns, the UDP side got
+fused with the last chunk) and all schedules of the two goroutines — including flush Writes that stay in
+progress on a slow tunnel while datagrams arrive and further flushes are triggered, and slow Writes on the
+UDP socket —: the relay returns, the UDP side got
 exactly the datagrams complete before the cut, the tunnel got exactly the encoding of the datagrams
 read from the UDP socket (ticks change nothing), all of them if the tunnel stays up. -/
 theorem C12_udp (sc : UdpSpecCase) (chunks : List Bytes) (hflat : chunks.flatten = sc.stream)
-    (hwf : ¬ (sc.utail = .hold ∧ sc.ttail = .hold)) (σ : List Bool) :
+    (hwf : ¬ (sc.utail = .hold ∧ sc.ttail = .hold)) (σ : List UTok) :
     holdsUdp sc (udpObs (udpRun .repaired ⟨sc.uevs, sc.utail, chunks, sc.ttail, sc.tfused⟩
       (udpComplete ⟨sc.uevs, sc.utail, chunks, sc.ttail, sc.tfused⟩ σ))) = true := by
   have h := udp_returned ⟨sc.uevs, sc.utail, chunks, sc.ttail, sc.tfused⟩ hwf σ
   exact holdsUdp_of sc chunks hflat _ h.2 h.1
 
-/-- The tunnel stream never depends on where the flush ticker fired or on batch boundaries: at any
-moment of any run, writes so far ++ pending batch = encoding of the datagrams read so far. -/
-theorem C12_udp_flush_irrelevant (c : UdpCase) (σ : List Bool) :
+/-- The tunnel stream never depends on where the flush ticker fired, on batch boundaries or on how
+long a Write took: at any moment of any run, bytes delivered ++ batch ++ (record of a datagram the
+main loop holds while it waits for the lock) = encoding of the datagrams read so far. -/
+theorem C12_udp_flush_irrelevant (c : UdpCase) (σ : List UTok) :
     ∃ taken, dgramsOf c.uevs = taken ++ dgramsOf (udpRun .repaired c σ).enc.pending ∧
-      (udpRun .repaired c σ).enc.flushes.flatten ++ (udpRun .repaired c σ).enc.batch = encodeAll (normDs taken) ∧
+      (udpRun .repaired c σ).enc.stream = encodeAll (normDs taken) ∧
       ((udpRun .repaired c σ).enc.done = true → (udpRun .repaired c σ).enc.batch = []) := by
   have inv := udpFold_inv c σ _ (udpInv_init c)
   obtain ⟨taken, h1, _, h3⟩ := inv.enc.split
-  exact ⟨taken, h1, h3, inv.enc.fin⟩
+  exact ⟨taken, h1, h3, fun hd => (inv.enc.fin hd).1⟩
+
+/-- **No tunnel Write is ever in progress on a buffer region the encoder may overwrite.** In every
+reachable state with a Write in progress (begun by the ticker, the half-full flush or the final
+flush; it refers to `batchBuf[:n]` and reads it when it completes): `n` is the whole batch, and no step
+of either goroutine other than the completion of that Write changes the batch or what was delivered —
+a datagram that arrives meanwhile is parked until the lock is free. (In the code: the Write happens
+under `batchMu`, pinned by `skel_UDP`.) -/
+theorem C12_udp_write_region_stable (c : UdpCase) (σ : List UTok) (w : Wip)
+    (hw : (udpRun .repaired c σ).enc.wip = some w) (t : UTok) (ht : t ≠ .w) :
+    w.n = (udpRun .repaired c σ).enc.batch.length ∧
+    (udpStep .repaired c (udpRun .repaired c σ) t).enc.batch = (udpRun .repaired c σ).enc.batch ∧
+    (udpStep .repaired c (udpRun .repaired c σ) t).enc.flushes = (udpRun .repaired c σ).enc.flushes ∧
+    (udpStep .repaired c (udpRun .repaired c σ) t).enc.wip = some w := by
+  have inv : UdpInv c (udpRun .repaired c σ) := udpFold_inv c σ _ (udpInv_init c)
+  generalize udpRun .repaired c σ = s at hw inv ⊢
+  have hwn := inv.enc.wipn w hw
+  have hU : ∀ hold, (udpStepU c s hold).enc.batch = s.enc.batch ∧ (udpStepU c s hold).enc.flushes = s.enc.flushes ∧
+      (udpStepU c s hold).enc.wip = some w := by
+    intro hold
+    unfold udpStepU
+    rw [if_neg (by rw [hwn.2]; simp), hw]
+    dsimp only
+    have sp := stepBlocked_spec c.uevs s.enc w s.udpClosed (utailEnd c.utail) inv.enc hw hwn.2
+    exact ⟨sp.2.2.2.1, sp.2.2.2.2.1, by simp only [UdpSt.withEnc]; rw [sp.2.1]; exact hw⟩
+  have hT : ∀ hold, (udpStepT .repaired c s hold).enc = s.enc := by
+    intro hold
+    unfold udpStepT
+    split
+    · rfl
+    · split
+      · rfl
+      · dsimp only; split <;> rfl
+  refine ⟨hwn.1, ?_⟩
+  cases t with
+  | u => exact hU false
+  | uh => exact hU true
+  | t => simp only [udpStep]; rw [hT false]; exact ⟨rfl, rfl, hw⟩
+  | th => simp only [udpStep]; rw [hT true]; exact ⟨rfl, rfl, hw⟩
+  | w => exact absurd rfl ht
+  | v =>
+    simp only [udpStep]
+    cases s.decHeld with
+    | none => exact ⟨rfl, rfl, hw⟩
+    | some d => exact ⟨rfl, rfl, hw⟩
 
 /-- **The batch buffer never overflows**: between events the batch is at most half the buffer, so
-the next maximal record (2 + 65536 bytes) always fits — `batchBuf[batchPos+2:]` stays in range. -/
+the next maximal record (2 + 65536 bytes) always fits — `batchBuf[batchPos+2:]` stays in range —
+and the "buffer full" flush is never needed. -/
 theorem C12_udp_batch_fits (e : Enc) (ev : UEv) (h : e.batch.length ≤ halfFull) :
-    (encEv e ev).batch.length ≤ halfFull ∧ e.batch.length + (2 + readBuf_0) ≤ batchBufSize := by
+    (encEv e false ev).batch.length ≤ halfFull ∧ e.batch.length + (2 + readBuf_0) ≤ batchBufSize := by
   have hc : halfFull = 131072 ∧ batchBufSize = 262144 ∧ readBuf_0 = 65536 := ⟨rfl, rfl, rfl⟩
   refine ⟨?_, by omega⟩
   cases ev with
@@ -158,10 +248,10 @@ theorem C12_udp_batch_fits (e : Enc) (ev : UEv) (h : e.batch.length ≤ halfFull
     simp only [encEv]
     split
     · exact h
-    · split <;> split
-      all_goals first
-        | (rw [flush_batch]; exact Nat.zero_le _)
-        | (rename_i hh; exact Nat.le_of_not_lt hh)
+    · unfold Enc.encode Enc.half
+      split
+      · simp only [Bool.false_eq_true, if_false]; rw [flush_batch]; exact Nat.zero_le _
+      · rename_i hh; exact Nat.le_of_not_lt hh
 
 /-! ## The two defects of the code as found (repaired in the worktree; kept as witnesses) -/
 
@@ -183,26 +273,30 @@ theorem C12_udp_asFound_hang_witness :
 
 /-- The hypotheses of `C12_udp` are inhabited by a non-trivial case: two datagrams cut inside the
 second prefix, delivered in three reads with the error fused to the last one, datagrams and a tick on
-the UDP side, an interleaved schedule. -/
+the UDP side, an interleaved schedule in which the ticker's tunnel Write stays in progress while the
+next datagram arrives. -/
 example :
     let sc : UdpSpecCase := ⟨[.dgram [1, 2], .tick, .dgram [3]], .hold, [[97], [98, 99]], 4, [], .err, true⟩
     [[0, 1], [97], [0]].flatten = sc.stream ∧ ¬ (sc.utail = .hold ∧ sc.ttail = .hold) ∧
     (udpObs (udpRun .repaired ⟨sc.uevs, sc.utail, [[0, 1], [97], [0]], sc.ttail, sc.tfused⟩
-      (udpComplete ⟨sc.uevs, sc.utail, [[0, 1], [97], [0]], sc.ttail, sc.tfused⟩ [true, false, true, false]))).udp = [[97]] := by
+      (udpComplete ⟨sc.uevs, sc.utail, [[0, 1], [97], [0]], sc.ttail, sc.tfused⟩ [.u, .t, .uh, .t, .u, .w]))).udp = [[97]] := by
   decide
 
 example : wfDgram [7] = true ∧ [[7], [8, 9]].all wfDgram = true ∧ completeBefore [[7], [8, 9]] 6 = [[7]] := by decide
 
-/-- A TCP case in which A half-closes first and B keeps sending: everything arrives. -/
+/-- A TCP case built like production (local socket with CloseWrite, tunnel = `NewReadWriteCloser(conn, conn, …)`):
+A's chunk is stuck in a slow Write on B while B sends, then A half-closes and B keeps sending: everything
+arrives, and no half-close reaches the tunnel transport. -/
 example :
-    let A : EP := ⟨[[1, 2]], .eof, false, none, false⟩
-    let B : EP := ⟨[[3], [4, 5]], .eof, false, none, false⟩
-    (tcpObs (tcpRun A B (tcpComplete A B [true, true, false, false, false]))).toA = [3, 4, 5] ∧
-    (tcpObs (tcpRun A B (tcpComplete A B [true, true, false, false, false]))).toB = [1, 2] := by
+    let A : EP := ⟨[[1, 2]], .eof, false, none, false, .cw⟩
+    let B : EP := ⟨[[3], [4, 5]], .eof, false, none, false, .same⟩
+    (tcpObs A B (tcpRun A B (tcpComplete A B [.ah, .b, .ax, .a, .b, .b]))).toA = [3, 4, 5] ∧
+    (tcpObs A B (tcpRun A B (tcpComplete A B [.ah, .b, .ax, .a, .b, .b]))).toB = [1, 2] ∧
+    (tcpObs A B (tcpRun A B (tcpComplete A B [.ah, .b, .ax, .a, .b, .b]))).cwB = false := by
   decide
 
 /-- `holdsTcp` is not trivially true: an observation that lost a byte fails it. -/
-example : holdsTcp ⟨[[1, 2]], .eof, false, none, false⟩ ⟨[], .eof, false, none, false⟩
+example : holdsTcp ⟨[[1, 2]], .eof, false, none, false, .cw⟩ ⟨[], .eof, false, none, false, .same⟩
     ⟨true, [1], [], false, false, false, true, true, true, 1, 0, .none, .none⟩ = false := by decide
 
 /-- `holdsUdp` is not trivially true: a relay that dropped the datagram before the cut fails it. -/
